@@ -338,6 +338,19 @@ def _unary(pyf, kind=None):
     return f
 
 
+def _np_method(name):
+    def m(self, *a, **k):
+        from . import shim
+
+        return getattr(shim.NP, name)(self, *a, **k)
+
+    m.__name__ = name
+    return m
+
+
+for _m in ("all", "any", "sum", "min", "max", "mean", "cumsum", "var", "clip"):
+    setattr(SymArray, _m, _np_method(_m))
+SymArray.squeeze = lambda s, *a, **k: SymArray(s.a.squeeze(*a, **k), s.kind, s.tag)
 SymArray.__neg__ = lambda s: _unary(lambda a: -a)(s)
 SymArray.__invert__ = lambda s: _unary(lambda a: ~a, "bool")(s)
 SymArray.__abs__ = lambda s: _unary(abs)(s)
